@@ -18,11 +18,9 @@ def sort_instances(tier):
     # block tails, partition_equal, pattern breaking, heapsort fallback. Calibration: length 5 does not
     # finish in 15 min (the split point is symbolic, so every recursive call works on a slice of
     # symbolic length); length 4 is the largest composite that fits, the pieces are covered as units
-    for l in ([4] if q else [4]):
-        add("qs_small_uncancelled_l%d" % l, l + 4, "quicksort_uncancelled::<%d>()" % l, {"len": l, "constants": "shrunk", "cancel": "never"}, True)
-    if not q:
-        add("qs_small_cancelled_l4", 8, "quicksort_cancelled::<4>()", {"len": 4, "constants": "shrunk", "cancel": "symbolic moment"}, True)
-        add("recurse_limit_small_l4", 8, "recurse_limit::<4>()", {"len": 4, "constants": "shrunk", "imbalance_budget": "symbolic 0..4"}, True)
+    # (the composite under shrunk constants and the `partition` unit were calibrated and dropped: the
+    # split point is symbolic, so every recursive call works on a slice of symbolic length - length 4
+    # runs > 10 min / exhausts the memory cap; see DESIGN.md §5.18)
     # units under the real constants (partition with the real BLOCK = 128 exhausts memory even at length 5:
     # it is covered under the shrunk BLOCK = 4)
     units = [("heapsort_unit", [5, 6] if q else [2, 3, 4, 5, 6, 8]), ("insertion_unit", [4] if q else [2, 4, 6]),
@@ -32,9 +30,6 @@ def sort_instances(tier):
     for fn, ls in units:
         for l in ls:
             add("%s_real_l%d" % (fn, l), max(l + 3, 6), "%s::<%d>()" % (fn, l), {"len": l, "constants": "real", "unit": fn}, False)
-    for fn, ls in (("partition_unit", [4] if q else [3, 4, 5, 6]), ("partial_insertion_unit", [] if q else [6, 7]), ("choose_pivot_unit", [] if q else [6, 8])):
-        for l in ls:
-            add("%s_small_l%d" % (fn, l), l + 4, "%s::<%d>()" % (fn, l), {"len": l, "constants": "shrunk", "unit": fn}, True)
     return out
 
 
